@@ -100,6 +100,10 @@ func (x *c02) proofSpec(r sxRun, fn *ssa.Function, ri int, roles map[int]string,
 			args[j] = paramTm(fn, pi)
 		}
 		wantK = sx.TmApp(x.e.Name(fOwf), args...)
+		// the same value with ntowfv2's body written out in place (R2 judges that body)
+		if inl, err := x.evalRef(sx, fOwf, args); err == nil {
+			altK = inl
+		}
 	}
 	kc := name + ": proof key = NTOWFv2 result"
 	switch K := cargs[1]; {
@@ -480,6 +484,51 @@ func (x *c02) r5() {
 			it.msg = "the line is " + got.Short() + " — " + tmDiff(got, want) + " — hashcat mode 5600 expects user::domain:challenge:NTProofStr:blob"
 		}
 		return []specItem{it}
+	})
+}
+
+// v1RespBySx: ntlm.calculateNTLMv1Response(challenge, password) returns
+// (DESL(lm.LMHash(password), challenge), DESL(nt.NTHash(password), challenge)),
+// however the two responses are reached (through the NTLMv1 methods, or through
+// a DESL routine called directly). The challenge is taken to be 8 bytes long
+// (NewNTLMv1WithPassword refuses anything else).
+func (x *c02) v1RespBySx(g *group, fn *ssa.Function, chal, pw int) {
+	if chal < 0 || pw < 0 {
+		return
+	}
+	name := x.P.FuncName(fn)
+	cn := fn.Params[chal].Name()
+	x.sxSetup = func(sx *flow.Sx) {
+		sx.FieldLen = func(path string) int {
+			if path == cn {
+				return 8
+			}
+			return -1
+		}
+	}
+	defer func() { x.sxSetup = nil }()
+	x.bySx(g, fn, nil, []*ssa.Function{fn}, map[string]int{c02R1: 2}, func(r sxRun) []specItem {
+		SC := flow.TmParam(cn, chal, 8)
+		var out []specItem
+		for i, w := range []struct{ label, what string }{{x.lLM, "LM response = DESL(lm.LMHash(password), challenge)"}, {x.lNT, "NT response = DESL(nt.NTHash(password), challenge)"}} {
+			h := r.sx.TmApp(w.label, paramTm(fn, pw))
+			h.M = 16
+			sub := sxRun{sx: r.sx}
+			if i < len(r.res) {
+				sub.res = []*flow.Tm{r.res[i]}
+			}
+			ok, und, msg := true, false, ""
+			for _, it := range x.deslSpec(sub, fn, h, SC, w.what) {
+				if !it.ok && ok {
+					ok, und, msg = false, it.undecided, it.msg
+				}
+			}
+			if ok {
+				msg = w.what
+			}
+			out = append(out, specItem{rule: c02R1, construct: fmt.Sprintf("%s: result #%d %s", name, i, w.what), ok: ok, undecided: und, msg: msg})
+		}
+		return out
 	})
 }
 
